@@ -27,7 +27,7 @@ SWAPS = {
     "g": ["g", "C(g)", "S(g)", "T(g, 'q')"],
     "h": ["h", "C(h)", "S(h)"],
     "x": ["x", "scale(x)", "center(x)", "poly(x, 2)", "bs(x, df=4)", "I(x + 1)"],
-    "z": ["z", "scale(z)", "I(z * 2)"],
+    "z": ["z", "scale(z)", "I(z * 2)", "poly(z, 2)"],
 }
 
 
@@ -159,9 +159,28 @@ def _indicators(df, var):
 
 
 def _numeric_cols(df, atom):
-    """columns of a numeric atom, evaluated on its own"""
+    """columns of a numeric atom, computed WITHOUT the library wherever the atom has a closed form (the
+    reference must not inherit a fault of the transform it is compared with); bs: the library, on its own"""
     import numpy as np
     from formulae import design_matrices
+    m = re.fullmatch(r"(x|z)|scale\((x|z)\)|center\((x|z)\)|poly\((x|z), (\d)\)|I\((x|z) ([+*]) (\d)\)", atom)
+    if m:
+        g = m.groups()
+        if g[0]:
+            return df[g[0]].to_numpy(dtype=float)[:, None]
+        if g[1]:
+            v = df[g[1]].to_numpy(dtype=float)
+            return ((v - v.mean()) / v.std())[:, None]
+        if g[2]:
+            v = df[g[2]].to_numpy(dtype=float)
+            return (v - v.mean())[:, None]
+        if g[3]:
+            v = df[g[3]].to_numpy(dtype=float)
+            d = int(g[4])
+            q, _ = np.linalg.qr(np.vander(v - v.mean(), d + 1, increasing=True))
+            return q[:, 1:]
+        v = df[g[5]].to_numpy(dtype=float)
+        return (v + int(g[7]) if g[6] == "+" else v * int(g[7]))[:, None]
     M = np.asarray(design_matrices(f"y ~ 0 + {atom}", df).common.design_matrix, dtype=float)
     return M
 
